@@ -391,7 +391,9 @@ func runCellWith(lf leaf, w wrapper, mask, silent int, asFuncs bool) (winner str
 }
 
 func sigOf(is core.ZodIssue) string {
-	return fmt.Sprintf("%s|%s|%s|%s|%v|%v", is.Code, is.Expected, is.Origin, is.Format, is.Minimum, is.Maximum)
+	// only what survives a container's re-reporting (ConvertZodIssueToRawWithPrependedPath keeps code, expected, received,
+	// minimum, maximum, inclusive; origin and format are lost on the way up)
+	return fmt.Sprintf("%s|%s|%v|%v", is.Code, is.Expected, is.Minimum, is.Maximum)
 }
 
 // ---------------------------------------------------------------- locale catalogue
